@@ -51,6 +51,10 @@ pub struct Matrix {
     pub pos: usize,
     /// `sleep 8` (true) or an instantaneous command
     pub slow: bool,
+    /// the test case at `pos` carries `wait: 2s` under a 1 s document limit: the budget runs out
+    /// between two test cases (instantaneous commands, at least one test case follows)
+    #[serde(default)]
+    pub wait: bool,
 }
 
 #[derive(Clone, Debug, Serialize, Deserialize)]
@@ -120,6 +124,13 @@ impl Matrix {
         if self.n == 0 || self.pos >= self.n {
             return false;
         }
+        if self.wait {
+            return self.format == Format::Markdown
+                && self.per_test == PerTest::Absent
+                && matches!(self.doc, DocLimit::FrontMatter1s | DocLimit::Cli1s)
+                && !self.slow
+                && self.pos + 1 < self.n;
+        }
         if self.format == Format::Cram && (self.per_test != PerTest::Absent || matches!(self.doc, DocLimit::ZeroFrontMatter | DocLimit::FrontMatter1s)) {
             return false;
         }
@@ -144,6 +155,9 @@ impl Matrix {
                     t.timeout_ms = self.per_ms();
                     if self.slow {
                         t.sleep_ms = SLOW_MS;
+                    }
+                    if self.wait {
+                        t.wait_ms = Some(2000);
                     }
                 }
                 t
@@ -243,6 +257,18 @@ fn gen_matrix(k: u64, rng: &mut Rng) -> Matrix {
         1 => n / 2,
         _ => n - 1,
     };
+    if k % 12 == 11 {
+        let n = n.max(2);
+        return Matrix {
+            format: Format::Markdown,
+            per_test: PerTest::Absent,
+            doc: if (k / 12) % 2 == 0 { DocLimit::FrontMatter1s } else { DocLimit::Cli1s },
+            n,
+            pos: pos.min(n - 2),
+            slow: false,
+            wait: true,
+        };
+    }
     if k % 6 == 5 {
         let i = ((k / 6) % CALM_ROWS.len() as u64) as usize;
         let (p, d) = CALM_ROWS[i];
@@ -253,6 +279,7 @@ fn gen_matrix(k: u64, rng: &mut Rng) -> Matrix {
             n,
             pos,
             slow: false,
+            wait: false,
         }
     } else {
         let i = ((k - k / 6) % SLOW_ROWS.len() as u64) as usize;
@@ -264,6 +291,7 @@ fn gen_matrix(k: u64, rng: &mut Rng) -> Matrix {
             n,
             pos,
             slow: true,
+            wait: false,
         }
     }
 }
@@ -562,7 +590,7 @@ impl C14 {
             Err(e) => return Checked::out_of_scope(e),
         };
         let expect_timeout = matches!(model.docs[0].end, DocEnd::TimedOut { .. });
-        if expect_timeout != case.slow {
+        if expect_timeout != (case.slow || case.wait) {
             return Checked::inconclusive("model and matrix row disagree");
         }
         let sb = Sandbox::new(env, "c14b");
@@ -587,7 +615,7 @@ impl C14 {
         let rel = case.relation();
         let fmt = if case.format == Format::Markdown { "markdown" } else { "cram" };
         let mut buckets = j.buckets.clone();
-        buckets.push(format!("B:{}:{rel}:{fmt}", if case.slow { "slow" } else { "calm" }));
+        buckets.push(format!("B:{}:{rel}:{fmt}", if case.slow { "slow" } else if case.wait { "wait" } else { "calm" }));
         buckets.push(format!("B:position={}", if case.pos == 0 { "first" } else if case.pos + 1 == case.n { "last" } else { "middle" }));
         let mut verdict: Option<(String, String)> = None;
         if let Some(f) = j.findings.first() {
@@ -656,7 +684,7 @@ impl C14 {
         // the slow command never got as far as its first marker (limit struck earlier, loaded
         // machine): nothing was observed about aborting it, the row does not count as observed
         let started = !case.slow || obs.markers.contains(&format!("m{}", case.pos));
-        let shape = hash_str(&format!("{:?}{:?}{:?}{}{}{}", case.format, case.per_test, case.doc, case.slow, case.n, case.pos));
+        let shape = hash_str(&format!("{:?}{:?}{:?}{}{}{}{}", case.format, case.per_test, case.doc, case.slow, case.n, case.pos, case.wait));
         let mut c = match verdict {
             Some((sig, detail)) => Checked::violated(sig, detail),
             None => Checked::held(),
@@ -683,7 +711,7 @@ impl Monitor for C14 {
         let nb = n_matrix(tier);
         let mut p = Plan::new(
             nb + tier.pick(200, 5000),
-            "(A) runs of 1-3 Markdown documents with fast commands (0 or 20-80 ms) under per-test limits {absent, 50 ms .. 1 h, equal to / just above the document limit} and document limits {default, 0, 200 ms .. 1 h} from front-matter and/or --timeout-seconds: every timeout_decision event judged logically; non-trivial = a decision with both limits defined; distinct = hash of (relation, per-test limit, document limit) per decision. (B) matrix per-test {absent, 300 ms, 30 s} x document limit {default, 0, 1 s front-matter, --timeout-seconds 1/0} x position {first, middle, last} x {sleep 8, instantaneous} restricted to rows where the smallest limit is <= 1 s (slow) or every limit >= 20 s (instantaneous), Markdown plus the command-line rows for Cram: every row non-trivial",
+            "(A) runs of 1-3 Markdown documents with fast commands (0 or 20-80 ms) under per-test limits {absent, 50 ms .. 1 h, equal to / just above the document limit} and document limits {default, 0, 200 ms .. 1 h} from front-matter and/or --timeout-seconds: every timeout_decision event judged logically; non-trivial = a decision with both limits defined; distinct = hash of (relation, per-test limit, document limit) per decision. (B) matrix per-test {absent, 300 ms, 30 s} x document limit {default, 0, 1 s front-matter, --timeout-seconds 1/0} x position {first, middle, last} x {sleep 8, instantaneous} restricted to rows where the smallest limit is <= 1 s (slow) or every limit >= 20 s (instantaneous), Markdown plus the command-line rows for Cram, plus rows in which a `wait: 2s` uses up a 1 s document limit between two instantaneous test cases (that test case or the next must be reported failed, nothing after it passed, exit 50): every row non-trivial",
         );
         p.chunk = 1;
         p.workers = tier.pick(28, 32);
@@ -696,6 +724,7 @@ impl Monitor for C14 {
             ("A:winner=doc".into(), tier.pick(120, 3000)),
             ("A:near-miss-tie".into(), tier.pick(5, 120)),
             ("kind:timeout".into(), tier.pick(8, 30)),
+            ("B:wait:document-limit-only:markdown".into(), tier.pick(1, 3)),
         ];
         p.assumptions = vec![
             "(A) rests on the timeout_decision / exec_end hooks; missing events are inconclusive".into(),
@@ -727,7 +756,14 @@ impl Monitor for C14 {
         match case {
             Case::Matrix(m) => {
                 // rows sleep: at most two cheaper variants
-                if m.n > 1 {
+                if m.wait {
+                    if m.n > 2 || m.pos > 0 {
+                        let mut s = m.clone();
+                        s.n = 2;
+                        s.pos = 0;
+                        out.push(Case::Matrix(s));
+                    }
+                } else if m.n > 1 {
                     let mut s = m.clone();
                     s.n = 1;
                     s.pos = 0;
@@ -774,7 +810,7 @@ impl Monitor for C14 {
             Case::Matrix(m) => {
                 let mut v = sample_run(&m.to_run());
                 v["monitor"] = json!("B");
-                v["row"] = json!(format!("{:?} per-test={:?} document={:?} n={} pos={} slow={}", m.format, m.per_test, m.doc, m.n, m.pos, m.slow));
+                v["row"] = json!(format!("{:?} per-test={:?} document={:?} n={} pos={} slow={} wait={}", m.format, m.per_test, m.doc, m.n, m.pos, m.slow, m.wait));
                 v
             }
             Case::Decision(d) => {
